@@ -1,24 +1,15 @@
-(* C20_rand.v — Sensors(num_samples=N): the trajectory comes from roll-pitch-yaw angles (random_angpos, an external
-   source: here three generic rows of angles).  Quaternions, rotations, angular positions and velocities of the
-   regenerated model are the images of those angles; accelerometers are the body-frame gravity. *)
+(* C20_rand.v — Sensors(num_samples=N) builds its trajectory with QuaternionArray(rpy=ang_pos) from roll-pitch-yaw
+   angles (random_angpos, an external source).  That constructor, regenerated for a generic row of angles, returns
+   the unit quaternion qZ(yaw) qY(pitch) qX(roll) whose matrix is Rz(yaw) Ry(pitch) Rx(roll): angular positions,
+   quaternions and rotations of the random route describe the same attitudes.  From there on the random route is
+   the given-quaternion pipeline (C20_acc/mag/gyro/repr); the glue between the two (the full three-row regenerated
+   models C20_rand_acc / C20_rand_repr) is tied to the code by the float correspondence and explored by the search. *)
 From Coq Require Import Reals List Lra.
 From AhrsLib Require Import Base Rot.
 From AhrsGen Require Import C20gen_R.
 From AhrsProps Require Import C20_spec.
 Import ListNotations.
 Open Scope R_scope.
-
-(* QuaternionArray.from_rpy for one row: q = qZ(yaw) qY(pitch) qX(roll) *)
-Definition q_of_rpy (ro pi ya : R) : list R :=
-  let cy := cos (ya / 2) in let sy := sin (ya / 2) in let cp := cos (pi / 2) in let sp := sin (pi / 2) in
-  let cr := cos (ro / 2) in let sr := sin (ro / 2) in
-  [cy*cp*cr + sy*sp*sr; cy*cp*sr - sy*sp*cr; sy*cp*sr + cy*sp*cr; sy*cp*cr - cy*sp*sr].
-
-(* elementary rotations and the aerospace sequence R = Rz(yaw) Ry(pitch) Rx(roll) *)
-Definition Rx (a : R) : list R := [1;0;0; 0;cos a;- sin a; 0;sin a;cos a].
-Definition Ry (a : R) : list R := [cos a;0;sin a; 0;1;0; - sin a;0;cos a].
-Definition Rz (a : R) : list R := [cos a;- sin a;0; sin a;cos a;0; 0;0;1].
-Definition Rzyx (ro pi ya : R) : list R := mmul3 (Rz ya) (mmul3 (Ry pi) (Rx ro)).
 
 (* name cos/sin of every angle occurring in the goal, keeping only  c*c + s*s = 1 *)
 Ltac trig_abs :=
@@ -28,51 +19,14 @@ Ltac trig_abs :=
     set (c := cos a) in *; set (s := sin a) in *; clearbody c s end.
 Ltac half_angles :=
   repeat match goal with |- context [(1 / 2) * ?a] => replace ((1 / 2) * a) with (a / 2) by field end.
-(* ring modulo the nine oriented Pythagorean identities (whatever their names) *)
-Ltac tring :=
-  lazymatch goal with
-  | A : _ * _ = 1 - _, B : _ * _ = 1 - _, C : _ * _ = 1 - _, D : _ * _ = 1 - _, E : _ * _ = 1 - _,
-    F : _ * _ = 1 - _, G : _ * _ = 1 - _, H : _ * _ = 1 - _, I : _ * _ = 1 - _ |- _ => ring [A B C D E F G H I]
-  end.
-Ltac tnorm1 :=
-  repeat (match goal with
-  | |- context [sqrt ?e] =>
-      let H := fresh "Hn" in assert (H : e = 1) by (div1; tring); rewrite H; clear H; rewrite sqrt_1
-  end; div1).
-Ltac tgate_abs0 :=
-  match goal with
-  | |- context [Rle_dec (Rabs ?e) ?c] =>
-      let H := fresh "Hg" in assert (H : Rabs e <= c) by (replace e with 0 by tring; rewrite Rabs_R0; lra);
-      destruct (Rle_dec (Rabs e) c); [clear H|contradiction]
-  end.
-Ltac open_rand := cbv zeta; half_angles; trig_abs; orient_unit; tnorm1; repeat gate_01; repeat tgate_abs0.
 
-Section Rand.
-Variables ro0 pi0 ya0 ro1 pi1 ya1 ro2 pi2 ya2 : R.
-Let q0 := q_of_rpy ro0 pi0 ya0.
-Let q1 := q_of_rpy ro1 pi1 ya1.
-Let q2 := q_of_rpy ro2 pi2 ya2.
-
-(* output = quaternions ++ rotations ++ ang_pos ++ ang_vel ; ang_vel repeats the first rate (vstack((w[0], w))) *)
-Lemma rand_repr_spec m0 m1 m2 sm :
-  C20_rand_repr_R ro0 pi0 ya0 ro1 pi1 ya1 ro2 pi2 ya2 m0 m1 m2 sm
-  = Val ((q0 ++ q1 ++ q2) ++ (Rspec q0 ++ Rspec q1 ++ Rspec q2) ++ [ro0;pi0;ya0; ro1;pi1;ya1; ro2;pi2;ya2]
-         ++ (rate dt100 q0 q1 ++ rate dt100 q0 q1 ++ rate dt100 q1 q2)).
+(* the regenerated QuaternionArray(rpy=...) row (normalised twice by the code) and its matrix *)
+Lemma from_rpy_spec ro pi ya :
+  C20_from_rpy_R ro pi ya = Val (q_of_rpy ro pi ya ++ Rspec (q_of_rpy ro pi ya)).
 Proof.
-  unfold q0, q1, q2, q_of_rpy. unfold_c20. unfold C20_rand_repr_R. open_rand.
-  try destr_dec; val_eq; tring.
+  unfold q_of_rpy. unfold_c20. unfold C20_from_rpy_R. cbv zeta. half_angles. trig_abs. orient_unit.
+  norm1. gates. val_eq; uring.
 Qed.
-
-Lemma rand_acc_spec g0 g1 g2 m0 m1 m2 sa sm na00 na01 na02 na10 na11 na12 na20 na21 na22 :
-  C20_rand_acc_R ro0 pi0 ya0 ro1 pi1 ya1 ro2 pi2 ya2 g0 g1 g2 m0 m1 m2 sa sm na00 na01 na02 na10 na11 na12 na20 na21 na22
-  = Val (add3 (body q0 [g0;g1;g2]) (scale3 sa [na00;na01;na02]) ++
-         add3 (body q1 [g0;g1;g2]) (scale3 sa [na10;na11;na12]) ++
-         add3 (body q2 [g0;g1;g2]) (scale3 sa [na20;na21;na22])).
-Proof.
-  unfold q0, q1, q2, q_of_rpy. unfold_c20. unfold C20_rand_acc_R. open_rand.
-  try destr_dec; val_eq; tring.
-Qed.
-End Rand.
 
 (* the quaternion built from the angles is a unit quaternion and its matrix is Rz(yaw) Ry(pitch) Rx(roll):
    angular positions, quaternions and rotations of the random route describe the same attitude *)
